@@ -22,6 +22,8 @@ type Header struct {
 	Prev  []byte
 	Nonce uint64
 	Bad   bool // Validate() fails
+	// VPanic: Validate() PANICS (scripted; wire flag byte 2). Bad (wire flag 1) stays ErrInvalid.
+	VPanic bool
 }
 
 var _ header.Header[*Header] = (*Header)(nil)
@@ -80,8 +82,17 @@ func (h *Header) Validate() error {
 	if h.Bad {
 		return ErrInvalid
 	}
+	if h.VPanic {
+		panic(ValidatePanicMsg)
+	}
 	return nil
 }
+
+// ValidatePanicMsg is the value Validate panics with on headers that carry VPanic.
+const ValidatePanicMsg = "vhdr: scripted Validate panic"
+
+// FlagValidatePanic is the wire flag byte (last byte of an encoding) of a header whose Validate panics.
+const FlagValidatePanic = 2
 
 func (h *Header) Hash() header.Hash {
 	b, _ := h.MarshalBinary()
@@ -114,9 +125,12 @@ func (h *Header) MarshalBinary() ([]byte, error) {
 	b = binary.BigEndian.AppendUint16(b, uint16(len(h.Prev)))
 	b = append(b, h.Prev...)
 	b = binary.BigEndian.AppendUint64(b, h.Nonce)
-	if h.Bad {
+	switch {
+	case h.Bad:
 		b = append(b, 1)
-	} else {
+	case h.VPanic:
+		b = append(b, FlagValidatePanic)
+	default:
 		b = append(b, 0)
 	}
 	return b, nil
@@ -150,10 +164,11 @@ func (h *Header) UnmarshalBinary(b []byte) error {
 	p += pl
 	nonce := binary.BigEndian.Uint64(b[p:])
 	p += 8
-	if b[p] > 1 {
+	if b[p] > FlagValidatePanic {
 		return ErrDecode
 	}
 	h.Chain, h.H, h.T, h.Prev, h.Nonce, h.Bad = chain, H, T, prev, nonce, b[p] == 1
+	h.VPanic = b[p] == FlagValidatePanic
 	if pl == 0 {
 		h.Prev = nil
 	}
@@ -203,7 +218,7 @@ func (r *Registry) Term(h *Header) string {
 		return "hdr_nil"
 	}
 	ok := "true"
-	if h.Bad {
+	if h.Bad || h.VPanic {
 		ok = "false"
 	}
 	return fmt.Sprintf("(Hdr false %d %d (%d)%%Z %d %d %s)",
